@@ -60,8 +60,11 @@ def run(ctx):
     ctx.modelled += [
         "BitSet storage is a List (BitVec 64), `set` an unbounded Int, indexes unbounded Nat: Go int overflow "
         "(indexes >= 2^57) is not modelled; negative indexes exit the process by design and are outside the domain",
-        "Clone/Copy/Data are modelled by value; that the copies do not alias the receiver is checked on the "
-        "implementation by the harness (it mutates one side / scribbles on the returned slice and observes the other)",
+        "the driver executes the HEAP model (Model/BitSetHeap.lean: slice headers into a heap of arrays, in-place writes "
+        "vs make+copy exactly as the code, the caller's slices in the same heap, scribbled on / watched as the Go harness "
+        "does); C08.heap_refines / no_aliasing prove it separated and equal to the value model after every session; "
+        "every line also runs with checked word accesses (Model/BitSetChecked.lean; C08.all_accesses_in_bounds*)",
+        "object identity of *BitSet values (Clone returning a new pointer) is not modelled: registers A/B are names",
     ]
     ctx.assumptions += ["index >= 0 (validateBitSetIndex exits the process otherwise)",
                         "no Go int overflow in index arithmetic",
